@@ -69,6 +69,19 @@ def run(ctx):
         for order in _it.permutations(kinds):
             for t in {"counter": ["COUNTER"], "gauge": ["GAUGE"], "hist": ["HISTOGRAM"], "summary": ["SUMMARY"]}[order[0]] + ["COUNTER" if "counter" in kinds else "GAUGE"]:
                 special.append([{"name": "multi", "help": "h", "type": t, "metrics": [dict({"labels": [["l", "v"]], "order": list(order)}, **{k: vals[k] for k in kinds})]}])
+    # fields a hand-written collector left UNSET (count, sum, a bucket's bound or count), and several samples of one family with the
+    # SAME label set that differ only in their timestamps (absent / explicitly 0 / non-zero): both data models must agree on what
+    # "unset" reads as and on the order in which gather() returns such samples
+    for hist in ({"b": [[F(1.0), 3], [F(2.0), 7]]}, {"sum": F(2.5), "b": [[F(1.0), 3]]}, {"count": 4, "b": [[None, 2], [F(2.0), None]]}, {"count": 0, "sum": F(0.0), "b": [[F(1.0), 5]]}):
+        special.append([{"name": "unset_h", "help": "h", "type": "HISTOGRAM", "metrics": [{"labels": [["l", "v"]], "hist": hist}]}])
+    for su in ({"q": [[F(0.5), F(1.0)]]}, {"sum": F(1.5), "q": []}, {"count": 3, "q": [[F(0.9), F(2.0)]]}):
+        special.append([{"name": "unset_s", "help": "h", "type": "SUMMARY", "metrics": [{"labels": [], "summary": su}]}])
+    tsv = [{}, {"ts": 0, "ts_force": True}, {"ts": 5}, {"ts": -3}]
+    for a in tsv:
+        for b in tsv:
+            if a is not b:
+                special.append([{"name": "same_labels", "help": "h", "type": "GAUGE", "metrics": [dict({"labels": [["l", "v"]], "gauge": F(2.0)}, **a), dict({"labels": [["l", "v"]], "gauge": F(1.0)}, **b),
+                                                                                                 dict({"labels": [["l", "a"]], "gauge": F(3.0)}, **b)]}])
     for lit in special:
         descs = [{"fq_name": f["name"], "help": f.get("help") or "h", "const": [], "var": []} for f in lit]
         calls = [{"op": "registry", "as": "r"}, {"op": "custom", "as": "cc", "descs": descs, "families": lit}, {"op": "register", "reg": "r", "obj": "cc"},
